@@ -192,6 +192,24 @@ def step (line : String) : String :=
           s!"model={showOutcome ra} {showOutcome rn} holds={if h then 1 else 0}"
         | none => "bad-op"
       | _, _, _ => "bad-args"
+    | ["c2x", t, sa, ha, sb, hb, ds] =>
+      -- two in flight, one response for neither: the model's waiter finds a foreign id at the head of the stream and
+      -- gives the Conn up (the code does so when its deadline expires); the second caller finds it closed
+      match ofHex t, parseInst sa ha, parseInst sb hb, ds.toNat? with
+      | some topic, some a, some b, some d =>
+        let stream := frame (1 + d) a.body
+        match runInstL true topic a (⟨stream, 1, false⟩, false) with
+        | some (ra, c1) =>
+          match runInstL true topic b c1 with
+          | some (rb, _) =>
+            let norm (s : String) := if s == "fail:noprogress" then "fail" else s
+            let h := match words impl with
+              | [x, y] => isFailStr x && isFailStr y
+              | _ => false
+            s!"model={norm (showOutcome ra)} {norm (showOutcome rb)} holds={if h then 1 else 0}"
+          | none => "bad-op"
+        | none => "bad-op"
+      | _, _, _, _ => "bad-args"
     | ["c2", t, sa, ha, sb, hb, ks] =>
       match ofHex t, parseInst sa ha, parseInst sb hb, ks.toNat? with
       | some topic, some a, some b, some k =>
